@@ -206,7 +206,7 @@ def batch_adversarial(ctx):
                 continue
             runs = [p2.make_inputs(nprng)]
             jobs2.append(cexec.Job(tag=f"adv{p.index}.{variant}", expr=p2.expr(), runs=runs, prep=_prep_dedup,
-                                   kir_orders=0, post=_post))
+                                   kir_orders=0, post=_post, want_source=True))
             meta.append((p2, runs, in_names, out_names))
     res2 = cexec.run_jobs(ctx, jobs2)
     dis = 0
@@ -303,7 +303,8 @@ def batch_adversarial_tags(ctx):
         if len(p2.outputs) != nout or len(p2.inputs) != nin:
             continue
         runs = [p2.make_inputs(nprng)]
-        jobs.append(cexec.Job(tag=f"tag{i}", expr=p2.expr(), runs=runs, prep=_prep_dedup, kir_orders=0, post=_post))
+        jobs.append(cexec.Job(tag=f"tag{i}", expr=p2.expr(), runs=runs, prep=_prep_dedup, kir_orders=0, post=_post,
+                              want_source=True))
         meta.append((p2, runs, in_names, out_names, tagger))
     res = cexec.run_jobs(ctx, jobs)
     dis = rejected = 0
